@@ -12,14 +12,21 @@
               | (c R M C)       R, M: integer | ctx (the context value);  C: keep | integer
               | (conn F L)      defaultConnectionCost; F, L: absent | null | integer (ctx.Arguments["first"|"last"])
               | edges           the connection's `edges` field
+              | (connraw (decls D*) (given G*) FS LS)   the same, from the request as written: the model coerces
+                                  variables and arguments itself (ArgModel.lean; an error → argument error)
+                D  (d NAME true|false none|null|integer)      `$NAME: Int[!] [= default]`
+                G  (g NAME null|integer)                      the request's variables (no entry = not given)
+                FS, LS  absent | null | integer | (var NAME)  how `first` / `last` are written
       VERDICT accepted | toohigh | (exceeds cost max) | (secondary msg) | (panic what) | oof
       ACTUAL  unset | integer                              REF     none | natural (Spec.refCost)
+    (connargs (decls D*) (given G*) FS LS)     → (ok F L) | (error MSG)   -- ConnRequest.args alone
   The cost context type is `Ctx = Int × Int` (application value, max edge count); background = (0, 0).
 -/
 import ApiFu.Common.Sexp
 import ApiFu.Common.Loop
 import ApiFu.C14.Model
 import ApiFu.C14.Spec
+import ApiFu.C14.ArgModel
 
 open ApiFu ApiFu.C14
 
@@ -39,9 +46,67 @@ def parseArgVal (x : Sexp) : Option ArgVal :=
   | Sexp.atom "null" => some .null
   | _ => (x.int?).map .int
 
+def parseLitOpt (x : Sexp) : Option (Option Lit) :=
+  match x with
+  | Sexp.atom "none" => some none
+  | Sexp.atom "null" => some (some .null)
+  | _ => (x.int?).map fun n => some (.int n)
+
+def parseDecl (x : Sexp) : Option VarDecl :=
+  match x with
+  | Sexp.list [Sexp.atom "d", Sexp.atom name, Sexp.atom nn, d] =>
+    (parseLitOpt d).map fun d => { name := name, nonNull := nn == "true", dflt := d }
+  | _ => none
+
+def parseGivenEntry (x : Sexp) : Option (String × ArgVal) :=
+  match x with
+  | Sexp.list [Sexp.atom "g", Sexp.atom name, v] =>
+    match v with
+    | Sexp.atom "null" => some (name, .null)
+    | _ => (v.int?).map fun n => (name, .int n)
+  | _ => none
+
+def parseSpelling (x : Sexp) : Option Spelling :=
+  match x with
+  | Sexp.atom "absent" => some .absent
+  | Sexp.atom "null" => some (.lit .null)
+  | Sexp.list [Sexp.atom "var", Sexp.atom name] => some (.var name)
+  | _ => (x.int?).map fun n => .lit (.int n)
+
+def allSome' {α β : Type} (f : α → Option β) : List α → Option (List β)
+  | [] => some []
+  | x :: xs =>
+    match f x, allSome' f xs with
+    | some y, some ys => some (y :: ys)
+    | _, _ => none
+
+/-- the request's variables map: the first entry of a name (the harness sends each name once). -/
+def givenOf (entries : List (String × ArgVal)) (name : String) : ArgVal :=
+  match entries.find? (fun p => p.1 == name) with
+  | some p => p.2
+  | none => .absent
+
+def parseConnRequest (decls given f l : Sexp) : Option ConnRequest :=
+  match decls, given with
+  | Sexp.list (Sexp.atom "decls" :: ds), Sexp.list (Sexp.atom "given" :: gs) =>
+    match allSome' parseDecl ds, allSome' parseGivenEntry gs, parseSpelling f, parseSpelling l with
+    | some ds, some gs, some f, some l => some { decls := ds, given := givenOf gs, first := f, last := l }
+    | _, _, _, _ => none
+  | _, _ => none
+
+def argValSexp : ArgVal → Sexp
+  | .absent => Sexp.atom "absent"
+  | .null => Sexp.atom "null"
+  | .int n => Sexp.ofInt n
+
 def parseSrc (x : Sexp) : Option (CostSrc Ctx) :=
   match x with
   | Sexp.atom "edges" => some (.fn edgesCost)
+  | Sexp.list [Sexp.atom "connraw", decls, given, f, l] =>
+    (parseConnRequest decls given f l).map fun r =>
+      match r.args with
+      | .ok (f, l) => .fn (connectionCost f l)
+      | .error _ => .argError
   | Sexp.list [Sexp.atom "conn", f, l] =>
     match parseArgVal f, parseArgVal l with
     | some f, some l => some (.fn (connectionCost f l))
@@ -115,6 +180,13 @@ def handle (line : String) : String :=
   match Sexp.parse line with
   | some (Sexp.list [Sexp.atom "mul", a, b]) => arith Generated.checkedNonNegativeMultiply a b
   | some (Sexp.list [Sexp.atom "add", a, b]) => arith Generated.checkedNonNegativeAdd a b
+  | some (Sexp.list [Sexp.atom "connargs", decls, given, f, l]) =>
+    match parseConnRequest decls given f l with
+    | some r =>
+      match r.args with
+      | .ok (f, l) => toString (Sexp.node "ok" [argValSexp f, argValSexp l])
+      | .error e => toString (Sexp.node "error" [Sexp.str e])
+    | none => "bad-op"
   | some (Sexp.list [Sexp.atom "cost", Sexp.atom opName, Sexp.atom varsOk, max, Sexp.list [dr, dm, dc],
       Sexp.list (Sexp.atom "ops" :: ops), Sexp.list (Sexp.atom "frags" :: frags)]) =>
     match max.int?, dr.int?, dm.int?, parseCtx dc, allSome parseOp ops, allSome parseFrag frags with
